@@ -30,6 +30,27 @@
 #endif
 
 
+/* The upper bits of an extended RCODE are written into the TTL of every OPT RR
+ * the record holds (ares_dns_write_rr_opt), in whichever section it sits; the
+ * parser reads them back from there. */
+static ares_bool_t ares_dns_has_opt_rr(const ares_dns_record_t *dnsrec)
+{
+  size_t sect;
+  size_t i;
+
+  for (sect = ARES_SECTION_ANSWER; sect <= ARES_SECTION_ADDITIONAL; sect++) {
+    for (i = 0; i < ares_dns_record_rr_cnt(dnsrec, (ares_dns_section_t)sect);
+         i++) {
+      const ares_dns_rr_t *rr =
+        ares_dns_record_rr_get_const(dnsrec, (ares_dns_section_t)sect, i);
+      if (ares_dns_rr_get_type(rr) == ARES_REC_TYPE_OPT) {
+        return ARES_TRUE;
+      }
+    }
+  }
+  return ARES_FALSE;
+}
+
 static ares_status_t ares_dns_write_header(const ares_dns_record_t *dnsrec,
                                            ares_buf_t              *buf)
 {
@@ -91,7 +112,7 @@ static ares_status_t ares_dns_write_header(const ares_dns_record_t *dnsrec,
   }
 
   /* RCODE */
-  if (dnsrec->rcode > 15 && ares_dns_get_opt_rr_const(dnsrec) == NULL) {
+  if (dnsrec->rcode > 15 && !ares_dns_has_opt_rr(dnsrec)) {
     /* Must have OPT RR in order to write extended error codes */
     rcode = ARES_RCODE_SERVFAIL;
   } else {
